@@ -38,10 +38,19 @@ type C07Case struct {
 	Journal *m.Journal `json:"journal"`
 	Entry   int        `json:"entry"`
 	Ops     []DamageOp `json:"ops"`
+	// Orphan lets the damage take away or indent the entry's first line (header deleted, swapped
+	// below a posting, blanked). It only applies when an empty line (or the start of the file)
+	// stands before the entry: the empty line ends the entry above, so the orphaned lines are
+	// still the damaged entry's own.
+	Orphan bool `json:"orphan,omitempty"`
 }
 
 // applyDamage returns the damaged lines of the entry.
 func applyDamage(lines []string, ops []DamageOp) []string {
+	return applyDamageOpt(lines, ops, false)
+}
+
+func applyDamageOpt(lines []string, ops []DamageOp, orphan bool) []string {
 	out := append([]string{}, lines...)
 	for _, op := range ops {
 		if len(out) == 0 {
@@ -82,20 +91,23 @@ func applyDamage(lines []string, ops []DamageOp) []string {
 		case "insert":
 			out[li] = l[:col] + op.Text + l[col:]
 		case "delete":
-			if li != 0 {
+			if li != 0 || (orphan && len(out) > 1) {
 				out = append(out[:li:li], out[li+1:]...)
 			}
 		case "duplicate":
 			out = append(out[:li+1:li+1], append([]string{l}, out[li+1:]...)...)
 		case "swap":
 			lj := (li + 1) % len(out)
-			if li != 0 && lj != 0 {
+			if (li != 0 && lj != 0) || orphan {
 				out[li], out[lj] = out[lj], out[li]
 			}
 		}
 	}
 	// the entry must still begin at column 0 (an indented first line would legitimately
 	// belong to the entry before it) and must not become empty
+	if orphan && len(out) > 0 {
+		return out
+	}
 	if len(out) == 0 || out[0] == "" || out[0][0] == ' ' || out[0][0] == '\t' {
 		first := lines[0]
 		if len(out) == 0 {
@@ -251,7 +263,8 @@ func c07Check(c *C07Case) (ds []ev.Discrepancy, nontrivial bool, r *m.Rendered) 
 	}
 	e := c.Entry
 	s0, e0 := r.EntryLine[e], r.EntryEnd[e] // 0-based inclusive
-	dmg := applyDamage(r.Lines[s0:e0+1], c.Ops)
+	orphan := c.Orphan && (s0 == 0 || r.Lines[s0-1] == "")
+	dmg := applyDamageOpt(r.Lines[s0:e0+1], c.Ops, orphan)
 	var lines2 []string
 	lines2 = append(lines2, r.Lines[:s0]...)
 	lines2 = append(lines2, dmg...)
@@ -336,16 +349,20 @@ func c07Check(c *C07Case) (ds []ev.Discrepancy, nontrivial bool, r *m.Rendered) 
 			if (ln >= s0 && ln <= e2end) || skip(d) {
 				continue
 			}
+			shift := 0
+			if ln > e2end {
+				shift = delta
+			}
 			if d.Code == nil || d.Code == "" {
 				if e == len(c.Journal.Entries)-1 && ln >= e2end {
 					continue
 				}
-				add("c07.diagnostic.outside", "syntax diagnostic %q on line %d, outside the damaged entry", d.Message, ln+1)
-				continue
-			}
-			shift := 0
-			if ln > e2end {
-				shift = delta
+				// a diagnostic without code is a syntax error, or the verdict on an include directive
+				// (file not found ...), which the intact text has on the same entry
+				if !contains(k1, key(d, shift)) {
+					add("c07.diagnostic.outside", "syntax diagnostic %q on line %d, outside the damaged entry", d.Message, ln+1)
+					continue
+				}
 			}
 			k2 = append(k2, key(d, shift))
 		}
@@ -410,7 +427,7 @@ func genDamage(t *rapid.T, nlines int) []DamageOp {
 	return ops
 }
 
-var c07Opts = gen.JournalOpts{MinEntries: 3, MaxEntries: 7, Directives: true, TopComments: true, NoIncludes: true,
+var c07Opts = gen.JournalOpts{MinEntries: 3, MaxEntries: 7, Directives: true, TopComments: true,
 	Tx: gen.TxOpts{MaxPostings: 4, MaxScale: 3, MaxDigits: 6}}
 
 var recC07 = ev.New("C07")
@@ -426,9 +443,24 @@ func TestC07(t *testing.T) {
 		p := &gen.Profile{Off: func(f string) bool { return f == "dir.Y" || f == "date.partial" || f == "date2.partial" || disabled(f) }, Excluded: recC07.Excluded}
 		pools := gen.GenPools(t, p)
 		j := gen.GenJournal(t, p, pools, c07Opts)
+		for i := range j.Entries {
+			// include paths stay relative to the (non-existent) directory of the document: damage to a
+			// path rooted at / or ~ could produce a glob over the whole file system (C06-F2)
+			if d := j.Entries[i].Dir; d != nil && d.Kind == "include" {
+				d.Path = strings.TrimLeft(d.Path, "/~")
+			}
+		}
 		r := m.Render(j)
 		e := rapid.IntRange(0, len(j.Entries)-1).Draw(t, "entry")
 		c := &C07Case{Journal: j, Entry: e, Ops: genDamage(t, r.EntryEnd[e]-r.EntryLine[e]+1)}
+		if rapid.IntRange(0, 2).Draw(t, "orphan") == 0 {
+			c.Orphan = true
+			if rapid.Bool().Draw(t, "orphanop") {
+				// take the first line away, or blank its start
+				first := DamageOp{Kind: rapid.SampledFrom([]string{"delete", "swap", "overwrite", "insert"}).Draw(t, "okind"), Line: 0, Col: 0, Len: rapid.IntRange(1, 4).Draw(t, "olen"), Text: rapid.SampledFrom([]string{" ", "    ", "\t"}).Draw(t, "otext")}
+				c.Ops = append([]DamageOp{first}, c.Ops...)
+			}
+		}
 		ds, nt, _ := c07Check(c)
 		kind := "entry:comment"
 		if j.Entries[e].Tx != nil {
@@ -442,6 +474,12 @@ func TestC07(t *testing.T) {
 		}
 		if nt {
 			cls = append(cls, "effective-damage")
+		}
+		if s0 := r.EntryLine[e]; c.Orphan && (s0 == 0 || r.Lines[s0-1] == "") {
+			d := applyDamageOpt(r.Lines[s0:r.EntryEnd[e]+1], c.Ops, true)
+			if d[0] == "" || d[0][0] == ' ' || d[0][0] == '\t' {
+				cls = append(cls, "first-line-lost-or-indented")
+			}
 		}
 		recC07.Case(nt, mustJSON(c), cls...)
 		if nt && recC07.WantSample() {
@@ -464,4 +502,13 @@ func init() {
 		ds, _, _ := c07Check(&c)
 		return ds, nil
 	}
+}
+
+func contains(ss []string, x string) bool {
+	for _, s := range ss {
+		if s == x {
+			return true
+		}
+	}
+	return false
 }
